@@ -164,6 +164,7 @@ class CallMixin(object):
             self.call_depth -= 1
             if self.call_depth == 0:
                 self.last_locals = dict(fr.env)
+                self.last_loop_entry = dict(getattr(fr, 'loop_entry', {}))
             self.frames.pop()
         rt = func.ret
         if rt is not None and rt[0] in ('double', 'int', 'bint'):
